@@ -853,6 +853,16 @@ class Ctx:
             self.assume(z3.Implies(k == KBOOL, z3.Or(v == 0, v == 1)))
         return SymNum(v, k)
 
+    def choose(self, name, k):
+        """A value in range(k) selected by the explorer (every value is a
+        path); recorded in the model as the Int constant `name`."""
+        c = z3.Int(f"choice!{name}")
+        self.assume(z3.And(c >= 0, c < k))
+        for v in range(k - 1):
+            if self.decide(c == v):
+                return v
+        return k - 1
+
     # ---- obligations
     def hyps(self):
         return list(self.assumptions) + list(self.pc)
